@@ -15,6 +15,7 @@ import (
 var traceFn = os.Getenv("HCSYM_TRACE")
 
 type fnInfo struct {
+	pure   int
 	idx    map[ssa.Value]int
 	n      int
 	target *ssa.Function // substituted model function (or the function itself)
@@ -281,8 +282,13 @@ func (fr *frame) visit(instr ssa.Instruction) continuation {
 		m.store(fr.get(instr.Addr), fr.get(instr.Val))
 
 	case *ssa.If:
+		cond := fr.get(instr.Cond).(*Term)
+		if !cond.IsConst() && !m.noMerge && fr.tryMergeIf(instr, cond) {
+			fr.block = nil
+			return kReturn
+		}
 		succ := 1
-		if m.branch(fr.get(instr.Cond).(*Term), "if") {
+		if m.branch(cond, "if") {
 			succ = 0
 		}
 		fr.prev, fr.block = fr.block, fr.block.Succs[succ]
